@@ -272,6 +272,12 @@ def c_garbage(ctx, case):
         raise
     except Exception as ex:  # noqa: BLE001
         import re
+        if isinstance(ex, TypeError) and "unary" in str(ex):
+            # '-(a, b))': the sign is applied to the tuple while the tree is built, before the
+            # stray token is reached -- Python's own '-(a, b)' is a TypeError as well.  Refused,
+            # just not with the parse error; outside the shared syntax.
+            ctx.count("garbage_refused_with_type_error")
+            return
         finding = KF_IMAG if isinstance(ex, ValueError) and re.search(r"[0-9][A-Za-z]", s) else None
         ctx.fail("C07.garbage", case, f"wrong-error:{type(ex).__name__}",
                  f"parse({s!r}) raised {type(ex).__name__}: {ex} instead of the parser's ParseError",
@@ -280,6 +286,38 @@ def c_garbage(ctx, case):
     ctx.fail("C07.garbage", case, "accepted",
              f"parse({s!r}) returned {r!r} although the string is not an expression (trailing / "
              f"missing tokens)")
+
+
+@check("C07.history")
+def c_history(ctx, case):
+    """The parser object carries no state from one string to the next: the trees of valid
+    strings are the same before and after any number of rejected strings."""
+    valid, bad = case
+    before = [repr(parse(s)) for s in valid]
+    n = 0
+    for g in bad:
+        try:
+            parse(g)
+        except RecursionError:
+            raise
+        except Exception:  # noqa: BLE001
+            n += 1
+    ctx.count("rejected_between_valid", n)
+    for s, b in zip(valid, before):
+        ctx.case(None)
+        ctx.count("valid_after_rejections")
+        try:
+            after = repr(parse(s))
+        except RecursionError:
+            raise
+        except Exception as ex:  # noqa: BLE001
+            ctx.fail("C07.history", case, f"valid-rejected-after-failures:{type(ex).__name__}",
+                     f"parse({s!r}) succeeded on the fresh parser but raised {type(ex).__name__}: "
+                     f"{ex} after {n} rejected strings on the same parser object")
+            continue
+        if after != b:
+            ctx.fail("C07.history", case, "tree-changed-after-failures",
+                     f"parse({s!r}) = {b} before and {after} after {n} rejected strings")
 
 
 ATOM = ["a", "b", "c", "d", "1", "2", "0", "x"]
@@ -337,6 +375,14 @@ def workload(ctx):
                         f"(a if c else b) {o} d", f"a {o} (b if c else d)"]
         strings += ["a if b else c if d else e", "(a if b else c) if d else e",
                     "a if (b if c else d) else e", "a if b if c else d else e"]
+        # numeric literals as operands (a literal is not a name: sign folding, '2.' / '.5' lexing,
+        # int/float typed results): every (prefix, binary) with a literal on either side, every
+        # operator pair with a literal in each position
+        for u, o in itertools.product(PRE, BIN):
+            strings += [f"{u}2 {o} a", f"a {o} {u}2", f"{u}2 {o} 3", f"{u}1.5 {o} 2",
+                        f"b * {u}2 {o} a", f"b {o} {u}3 ** a"]
+        for o1, o2 in itertools.product(BIN, BIN):
+            strings += [f"2 {o1} b {o2} c", f"a {o1} 2 {o2} c", f"a {o1} b {o2} 2"]
         strings += LITERALS + POSTFIX
         for s in strings:
             if ctx.mine("pairs"):
@@ -393,8 +439,15 @@ def workload(ctx):
                 continue
             ctx.case(("g", g), True, n=0)
             ctx.run("C07.garbage", (g,))
+        # history on the ONE module-level parser object: valid strings, then a burst of
+        # rejected ones (a batch of negative tests), then the same valid strings again.
+        if ctx.shard == 0:
+            valid = ["a + b*c", "a < b <= c", "f(a, k=b)[c].attr", "-a ** 2 // (b % c)",
+                     "((((((((a))))))))", "a if b else c if d else e", "(a, (b, (c,)))"]
+            ctx.run("C07.history", (valid, GARBAGE * ctx.pick(25, 100)))
         for k, v in tr.handlers("parse").items():
             ctx.count("handler:" + k, v)
+    ctx.floor("rejected_between_valid", 500)
     ctx.floor("strings_compared", 3000)
     ctx.floor("exhaustive_skeletons", 500)
     ctx.floor("importer_calls", 3000)
@@ -413,6 +466,6 @@ def _pymbolic_only_syntax(g):
     import re
     if re.search(r"(^|[-+*/%(,\[<>=&|^~]|\bnot|\band|\bor|\bif|\belse)\s*\*(?!\*)", g):
         return True      # a '*' in operand position is pymbolic's wildcard
-    if re.search(r"(\*\*|<<|>>|//|[-+*/%&|^~])\s*not\b", g):
+    if re.search(r"(\*\*|<<|>>|//|<=|>=|==|!=|[-+*/%&|^~<>])\s*not\b", g):
         return True      # 'a - not b': Python wants parentheses there, pymbolic's grammar does not
     return any(t in g for t in (":", "@", "$")) or g.strip().endswith(",")
